@@ -44,6 +44,7 @@ from sympy import (
     StrictLessThan,
     Symbol,
     Unequality,
+    cancel,
     collect,
     default_sort_key,
     floor,
@@ -665,6 +666,8 @@ class Goebner:
                         lexpr = solve(expr, solve_for)  # solve for the first one, have to think of a valid strategy
                         if len(lexpr) != 1:  # negative squareroots etc...
                             continue
+                        if not cancel(expr / (solve_for - lexpr[0])).is_number:
+                            continue  # dividing by a variable looses the solutions where it is zero (Y = X*Y)
                         ret.append(
                             Literal(LOC, Sign.NoSign, self.relation2ast(solve_for, ComparisonOperator.Equal, lexpr[0]))
                         )
